@@ -89,7 +89,7 @@ def exc_sig(exc):
 class Outcome:
     __slots__ = ('case', 'text', 'profile', 'E', 'exc', 'stage', 'arith', 'actions', 'snaps',
                  'iterations', 'budget_hit', 'nballots', 'elected', 'defeated', 'withdrawn',
-                 'report', 'dump', 'json', 'record', 'header_keys', 'names')
+                 'report', 'dump', 'json', 'record', 'header_keys', 'names', 'again')
 
     def __init__(self):
         for s in self.__slots__:
@@ -227,9 +227,16 @@ def run(case, snap=False, renders=False, iter_budget=12, text=None, bound=True, 
             return o
         if renders:
             try:
+                before = repr(rec['actions']) if renders == 2 else None
                 o.report = E.report()
                 o.dump = E.dump()
                 o.json = E.json()
+                if renders == 2:
+                    # every rendering a second time, in another order: the answers must not depend on what was rendered before
+                    j2 = E.json()
+                    d2 = E.dump()
+                    r2 = E.report()
+                    o.again = dict(report=r2, dump=d2, json=j2, actions_untouched=repr(rec['actions']) == before)
             except Exception as exc:     # pylint: disable=broad-except
                 o.exc = exc
                 o.stage = 'render'
